@@ -46,6 +46,7 @@ FIXED = [
  ("fix: data race between TableCache.Purge", "C18", "TestFixedC18PurgeAccessorRace race=1", "TableCache.DatabaseModel()/Mapper() read the database model without the cache mutex while Purge (reconnect) replaces it: data race between WhereCache/Where*/Create and a reconnect (found by the thorough tier of TestC18Concurrent)"),
  ("fix: the reply of a failed RPC was read", "C18", "TestFixedC18FailedCallReply", "monitor() copied and Echo compared the reply of a call that had failed because its context ended, while the read loop may still decode the late reply into it (data race reported by TestC18Enumerated monitor:cancelled-context under load; Echo returned 'incorrect server response' instead of the context error)"),
  ("fix: a where clause with a few dozen equality conditions", "C19", "TestFixedC19ConditionPowerSet", "a where clause with n equality (or map includes) conditions made the cache try all 2^n subsets of them as indexes: 22 conditions took 4.5 s and 900 MB, 30 exhaust the memory of the machine - one syntactically valid transact request (select, update, mutate, delete or wait) killed the server; found while confirming seeded change C19-r5 (preallocated power set)"),
+ ("fix: Transact panicked (send on closed channel)", "C18", "TestFixedC18TrafficSeenClosed", "with WithInactivityCheck, transact() reported a reply to the inactivity prober by a blocking send on a channel that handleDisconnectNotification closes: a connection lost right after a transact reply made Transact panic in the caller (send on closed channel), or block until then holding rpcMutex; found as a data race closechan/chansend by TestC18Concurrent once it drew the inactivity option"),
  ("fix: commit, comment and assert", "C19", "TestFixedC19DegenerateOps", "commit/comment/assert operations carrying a table but not their member dereferenced nil"),
 ]
 log = subprocess.run(["git","-C","/repo","log","--format=%h %s"],capture_output=True,text=True).stdout.splitlines()
